@@ -5,3 +5,6 @@ reg('C10', 'property-based testing (Hypothesis): generated (a,b,c) triples by si
 reg('C04', 'property-based testing (Hypothesis): generated containers x keys x routes vs a Python list/range reference model of selection',
     'No counterexample among generated selections (iloc/loc/getitem/bloc; all layouts; flat/auto/date/hierarchical indices; absent labels) apart from the listed known findings; bounded sizes (<=6x6 frames, <=8 series).',
     'Trusts the list model of positions/labels (vf/props/c04.py), NumPy scalar equality, and that constructor-built containers hold the recipe values.', 'DESIGN.md section 3, C04')
+reg('C03', 'property-based testing (Hypothesis): differential over block layouts of the same columns x generated public operations; model-based coherence of every read route',
+    'No unlisted layout-dependence among generated (frame, 3 layouts, operation) cases over a 72-entry operation table with value-bearing arguments, and every read route agrees with the model cells; bounded to <=6x6 frames.',
+    'Trusts the observation function (labels, per-column dtype, NaN-aware values, error class), the recipe builders, and float tolerance 1e-9; str/bytes width not compared.', 'DESIGN.md section 3, C03')
